@@ -231,10 +231,10 @@ func c11r4(c *core.Ctx) {
 			if _, isDefer := i.(*ssa.Defer); isDefer {
 				return
 			}
-			used[g.Name()] = true
-			if !allowed[g.Name()] {
+			used[cn(g)] = true
+			if !allowed[cn(g)] {
 				bad++
-				c.Bad("http-uses:"+g.Name()+"@"+fname(f), posOf(i), "the HTTP layer calls Characteristic.%s, which is not part of the permission-checking API", g.Name())
+				c.Bad("http-uses:"+cn(g)+"@"+fname(f), posOf(i), "the HTTP layer calls Characteristic.%s, which is not part of the permission-checking API", cn(g))
 			}
 		})
 		// no direct field writes to a Characteristic from the HTTP layer
